@@ -3,3 +3,5 @@ import Iso8583.Driver
 import Iso8583.Props.C06
 import Iso8583.Props.C07
 import Iso8583.Props.C20
+import Iso8583.Props.C16
+import Iso8583.Props.C13
